@@ -69,9 +69,14 @@ void Serializer::serializeTree(const Tree& t_)
 
 void Serializer::serializeShape(const Archive::Shape& s)
 {
+    // The ids map refers to flattened trees, so we must flatten before
+    // checking whether the root has already been stored.
+    flattened.push_back(s.tree.flatten());
+    const Tree& tree = flattened.back();
+
     // 'T' indicate a fully-serialized tree;
     // 't' indicates an id pointing to an earlier tree.
-    const bool already_stored = ids.find(s.tree.id()) != ids.end();
+    const bool already_stored = ids.find(tree.id()) != ids.end();
     out.put(already_stored ? 't' : 'T');
 
     serializeString(s.name);
@@ -79,11 +84,11 @@ void Serializer::serializeShape(const Archive::Shape& s)
 
     if (already_stored)
     {
-        serializeBytes(ids.at(s.tree.id()));
+        serializeBytes(ids.at(tree.id()));
     }
     else
     {
-        serializeTree(s.tree);
+        serializeTree(tree);
         out.put(END_OF_ITEM);
     }
     for (auto& v : s.vars)
